@@ -13,6 +13,7 @@ import (
 	"sort"
 	"strconv"
 	"strings"
+	"unicode/utf16"
 )
 
 type Obj struct {
@@ -199,6 +200,38 @@ func NormNumber(tok string) string {
 type Style struct {
 	// Pad returns whitespace to emit at a structural position.
 	Pad func() string
+	// ASCII writes every non-ASCII character as \uXXXX (surrogate pairs
+	// above the BMP), which is what Python's json.dumps does by default.
+	ASCII bool
+	// EscapeSlash writes '/' as "\/" (legal JSON; PHP's json_encode).
+	EscapeSlash bool
+	// Spaced writes ", " and ": " separators (Python's default).
+	Spaced bool
+}
+
+// PythonStyle is the output style of Python's json.dumps with defaults.
+var PythonStyle = &Style{ASCII: true, Spaced: true}
+
+func writeStringStyle(b *bytes.Buffer, s string, st *Style) {
+	if st == nil || (!st.ASCII && !st.EscapeSlash) {
+		WriteString(b, s)
+		return
+	}
+	var tmp bytes.Buffer
+	WriteString(&tmp, s)
+	for _, r := range tmp.String() {
+		switch {
+		case r == '/' && st.EscapeSlash:
+			b.WriteString("\\/")
+		case r < 0x80 || !st.ASCII:
+			b.WriteRune(r)
+		case r >= 0x10000:
+			r1, r2 := utf16.EncodeRune(r)
+			fmt.Fprintf(b, "\\u%04x\\u%04x", r1, r2)
+		default:
+			fmt.Fprintf(b, "\\u%04x", r)
+		}
+	}
 }
 
 func Marshal(v any) []byte {
@@ -230,7 +263,7 @@ func write(b *bytes.Buffer, v any, st *Style) {
 			b.WriteString("false")
 		}
 	case string:
-		WriteString(b, x)
+		writeStringStyle(b, x, st)
 	case json.Number:
 		b.WriteString(string(x))
 	case []any:
@@ -238,6 +271,9 @@ func write(b *bytes.Buffer, v any, st *Style) {
 		for i, e := range x {
 			if i > 0 {
 				b.WriteByte(',')
+				if st != nil && st.Spaced {
+					b.WriteByte(' ')
+				}
 			}
 			pad(b, st)
 			write(b, e, st)
@@ -252,11 +288,17 @@ func write(b *bytes.Buffer, v any, st *Style) {
 		for i, k := range x.Keys {
 			if i > 0 {
 				b.WriteByte(',')
+				if st != nil && st.Spaced {
+					b.WriteByte(' ')
+				}
 			}
 			pad(b, st)
-			WriteString(b, k)
+			writeStringStyle(b, k, st)
 			pad(b, st)
 			b.WriteByte(':')
+			if st != nil && st.Spaced {
+				b.WriteByte(' ')
+			}
 			pad(b, st)
 			write(b, x.Vals[i], st)
 			pad(b, st)
